@@ -342,6 +342,34 @@ def judge_molecule_api(name, seed):
     return None
 
 
+def judge_long_molecule(seed):
+    """an elongated molecule (a C12H2 rod, 16 A) along a coordinate axis and along the body diagonal: the same molecule, so it is described in
+    both poses (default search bounds) and the descriptors agree up to the discretisation error"""
+    from chmpy import Molecule
+    warnings.filterwarnings("ignore")
+    nrng = np.random.default_rng(seed)
+    nc = 12                                    # C12H2, 16 A long
+    z = np.array([1] + [6] * nc + [1])
+    x = np.array([-1.06] + [1.28 * i for i in range(nc)] + [1.28 * (nc - 1) + 1.06])
+    p0 = np.c_[x, np.zeros(nc + 2), np.zeros(nc + 2)] + nrng.normal(size=3)
+    d = np.array([1.0, 1.0, 1.0]) / np.sqrt(3)
+    a = np.cross([1.0, 0, 0], d)
+    sa, ca = np.linalg.norm(a), d[0]
+    K = np.array([[0, -a[2], a[1]], [a[2], 0, -a[0]], [-a[1], a[0], 0]]) / sa
+    R = np.eye(3) + sa * K + (1 - ca) * K @ K          # turns the x axis onto the body diagonal
+    descs = []
+    for name, pp in (("along x", p0), ("along (1,1,1)", p0 @ R.T), ("along (1,-1,1), shifted", (p0 @ R.T) * np.array([1, -1, 1]) @ np.eye(3) + np.array([3.0, -2.0, 5.0]))):
+        try:
+            descs.append(Molecule.from_arrays(z, pp).shape_descriptors(l_max=8))
+        except Exception as ex:  # noqa
+            return f"C12H2 rod {name}: Molecule.shape_descriptors raised {type(ex).__name__}: {ex} — the same molecule is described in another pose"
+    for k in (1, 2):
+        e = err_of(descs[0], descs[k], 8)
+        if e > ROT_TOL[8]:
+            return f"C12H2 rod: Molecule.shape_descriptors changes by {e:.3g} between the pose along x and pose #{k}"
+    return None
+
+
 def judge_crystal(fname, seed):
     """molecular shape descriptors in the crystal: origin shift of the whole structure (P1) leaves the set of descriptors unchanged"""
     from chmpy.crystal import AsymmetricUnit, Crystal, SpaceGroup
@@ -494,6 +522,7 @@ def plan(ctx, budget):
             if budget != "quick" or name in ("acetic", "random"):
                 yield ("shrink", name, rng.randrange(1 << 30), 0, kind, "none")
         yield ("molecule-api", name, rng.randrange(1 << 30), 0, "-", "none")
+    yield ("long-molecule", "C8H2", rng.randrange(1 << 30), 0, "-", "none")
     for fname in ("acetic_acid.cif",) if budget == "quick" else ("acetic_acid.cif", "iceII.cif"):
         yield ("crystal", fname, rng.randrange(1 << 30), 0, "-", "none")
 
@@ -516,6 +545,8 @@ def run_case(c):
         return judge_shrink(name, seed, kind)
     if what == "molecule-api":
         return judge_molecule_api(name, seed)
+    if what == "long-molecule":
+        return judge_long_molecule(seed)
     return judge_crystal(name, seed)
 
 
